@@ -155,6 +155,20 @@ def invariances(ao):
                         bad.append(("conversion:diagram:r0_from_slopes(slope_variance_from_r0)-inverse-pair:static-offset",
                                     dict(r0=r0, wavelength=wl, subapDiam=d, offset=off, got=got, expected=want)))
                         return bad, n
+    # altitudes / wind speeds tabulated as integers (metres, whole m/s; int64 and int32): the numbers they are
+    h_f = np.array([0.0, 500.0, 2000.0, 6208.0, 6209.0, 10000.0, 16000.0, 22000.0])
+    v_f = np.array([5.0, 8.0, 12.0, 20.0, 35.0, 30.0, 15.0, 10.0])
+    cn = (1.0 + np.arange(8) % 3) * 1e-15
+    for it in (np.int64, np.int32):
+        for name, f, arr in (("isoplanaticAngle", lambda a, w: ac.isoplanaticAngle(a, w, 5e-7), h_f), ("rytov_variance", lambda a, w: ac.rytov_variance(a, w, 5e-7), h_f),
+                             ("coherenceTime", lambda a, w: ac.coherenceTime(a, w, 5e-7), v_f)):
+            want = float(f(cn.copy(), arr.copy()))
+            got = float(f(cn.copy(), arr.astype(it)))
+            single = float(f(cn[5:6].copy(), arr[5:6].astype(it)))
+            n += 1
+            if not abs(got - want) <= 1e-12 * abs(want) or not abs(single - float(f(cn[5:6].copy(), arr[5:6].copy()))) <= 1e-12 * abs(single):
+                bad.append(("%s:integer-%s-profile" % (name, "altitude" if arr is h_f else "wind"), dict(dtype=np.dtype(it).name, got=got, expected=want)))
+                return bad, n
     # a masked slope record (flagged frames): the flagged samples do not enter the variance
     for r0 in (0.1, 0.4):
         sig = math.sqrt(float(ac.slope_variance_from_r0(r0, 500e-9, 0.2)))
